@@ -220,4 +220,20 @@ PROPS = {
             'the loop of _check_buffer_sharing over buffer groups is hand-modelled (Model/Plan.v check_buffer_sharing_with) and tied by correspondence P (same RuntimeError / same acceptance); the pairwise predicate is regenerated',
             'value closeness for every consumer is C05 applied to the (constant, parameters) pair'],
     },
+    'C08': {
+        'steps': [{'script': 'corr_plan.py', 'timeout': 1500, 'timeout_thorough': 6000},
+                  {'script': 'corr_graph.py', 'timeout': 1500, 'timeout_thorough': 6000},
+                  {'script': 'oracle_c08.py', 'timeout': 1500, 'timeout_thorough': 6000}],
+        'required_theorems': ['C08_shipped_recipes_resolve_to_materializable_configs',
+                              'C08_opname_all_complete', 'C08_a8w8_covers_readme_table'],
+        'rule': GRAPH_RULE + ('; C08 oracle: every generated model x every shipped recipe (5 default JSON files + '
+                              'recipe.py helpers) through the public API: Quantizer(model, recipe), calibrate() per '
+                              'signature on random inputs when need_calibration, quantize(); any exception is a '
+                              'violation keyed by stage and cause; non-trivial = the pair returned a model; distinct = '
+                              'distinct (model, recipe)'),
+        'trusted_base': COMMON_TB + GRAPH_TB,
+        'assumptions': GRAPH_ASSUME + [
+            'proved: the recipe-dependent raise sites of plan generation are unreachable under every shipped default recipe for all graphs (finite decision table, vm_compute over the regenerated recipes/policy/registry); graph-dependent raise sites are covered by correspondence and the end-to-end oracle, not proved unreachable',
+            'sample_advanced_usage_recipe.json is scoped to one sample model and is exercised by C12 (loads), not here'],
+    },
 }
